@@ -1,5 +1,5 @@
 (* Driver for the extracted C05 model. One case per line on stdin, one result line per case.
-     flat <dims> | <idxs>                      -> "<k>" | "ERR"      calc_flat dims (map narrow32 idxs)
+     flat <dims> | <idxs>                      -> "<k>" | "ERR"      all_to_int idxs >>= calc_flat dims
      res <N|M> <R|W> <dims> | <idxs>           -> "OK <k>" | "ERR bounds" | "ERR other"
      ptr <base> <n> <e> <+|-> <k>              -> "<e'>" | "ERR"
      run <plain|checked> <N|M> <dims> <base> | <cells> | <op>;<op>;...
@@ -70,7 +70,9 @@ let handle line =
     let parts = String.split_on_char '|' rest in
     (match cmd, parts with
      | "flat", [d; ix] ->
-         (match calc_flat (zlist d) (List.map narrow32 (zlist ix)) with Some k -> string_of_z k | None -> "ERR")
+         (match all_to_int (zlist ix) with
+          | None -> "ERR"
+          | Some l -> (match calc_flat (zlist d) l with Some k -> string_of_z k | None -> "ERR"))
      | "res", [h; ix] ->
          (match words h with
           | [k; m; d] ->
